@@ -2,6 +2,7 @@ package bill
 
 import (
 	"errors"
+	"strconv"
 
 	"github.com/invopop/gobl/cal"
 	"github.com/invopop/gobl/cbc"
@@ -44,6 +45,10 @@ type billable interface {
 
 func calculate(doc billable) error {
 	r := doc.RegimeDef() // may be nil!
+
+	if err := checkNullRows(doc); err != nil {
+		return err
+	}
 
 	// Normalize data
 	if doc.getIssueDate().IsZero() {
@@ -199,6 +204,78 @@ func calculate(doc billable) error {
 	doc.setTotals(t)
 
 	return nil
+}
+
+// checkNullRows ensures that none of the lists of rows used for the
+// calculations contain null entries, which cannot be calculated.
+func checkNullRows(doc billable) error {
+	errs := validation.Errors{}
+	for i, l := range doc.getLines() {
+		if l == nil {
+			errs["lines"] = nullRowError(i)
+			break
+		}
+		if err := checkNullSubLines(l); err != nil {
+			errs["lines"] = validation.Errors{strconv.Itoa(i): err}
+			break
+		}
+	}
+	for i, l := range doc.getDiscounts() {
+		if l == nil {
+			errs["discounts"] = nullRowError(i)
+			break
+		}
+	}
+	for i, l := range doc.getCharges() {
+		if l == nil {
+			errs["charges"] = nullRowError(i)
+			break
+		}
+	}
+	for i, l := range doc.getPreceding() {
+		if l == nil {
+			errs["preceding"] = nullRowError(i)
+			break
+		}
+	}
+	if pd := doc.getPaymentDetails(); pd != nil {
+		for i, a := range pd.Advances {
+			if a == nil {
+				errs["payment"] = validation.Errors{"advances": nullRowError(i)}
+				break
+			}
+		}
+		if pd.Terms != nil {
+			for i, dd := range pd.Terms.DueDates {
+				if dd == nil {
+					errs["payment"] = validation.Errors{"terms": validation.Errors{"due_dates": nullRowError(i)}}
+					break
+				}
+			}
+		}
+	}
+	if len(errs) > 0 {
+		return errs
+	}
+	return nil
+}
+
+func checkNullSubLines(l *Line) error {
+	for i, sl := range l.Breakdown {
+		if sl == nil {
+			return validation.Errors{"breakdown": nullRowError(i)}
+		}
+	}
+	for i, sl := range l.Substituted {
+		if sl == nil {
+			return validation.Errors{"substituted": nullRowError(i)}
+		}
+	}
+	return nil
+}
+
+func nullRowError(i int) error {
+	return validation.Errors{strconv.Itoa(i): errors.New("must not be null")}
 }
 
 func calculateOrgDocumentRefs(drs []*org.DocumentRef, cur currency.Code, rr cbc.Key) {
